@@ -8,4 +8,5 @@ INVARIANT RleInverse
 INVARIANT RleCodeOK
 INVARIANT RleInLump
 INVARIANT RleTruncates
+INVARIANT VisSeqOK
 CHECK_DEADLOCK FALSE
